@@ -155,7 +155,13 @@ def ser_tree(e):
     if isinstance(e, Mul):
         return {"k": "mul", "a": [ser_tree(a) for a in e.args]}
     if isinstance(e, Pow):
-        return {"k": "pow", "b": ser_tree(e.base), "e": ser_tree(e.exp)}
+        # general powers: the integer part of the exponent is split off exactly as ser.ser_sx does for the outputs
+        # (b**(r+n) = b**r * b**n, the exponent law trusted by the serialiser), so that both sides name the same atom
+        rest, n = ser._split_exponent(e.exp)
+        if rest == 0 or n == 0:
+            return {"k": "pow", "b": ser_tree(e.base), "e": ser_tree(e.exp)}
+        return {"k": "mul", "a": [{"k": "pow", "b": ser_tree(e.base), "e": ser_tree(rest)},
+                                  {"k": "pow", "b": ser_tree(e.base), "e": {"k": "num", "p": int(n), "q": 1}}]}
     for name, f in FN.items():
         if name != "sqrt" and isinstance(e, f):
             return {"k": "fn", "f": name, "a": ser_tree(e.args[0])}
@@ -605,10 +611,14 @@ def run_case_guarded(case, limit):
     import signal
     signal.signal(signal.SIGALRM, _alarm)
     signal.alarm(int(limit))
+    import time
+    t0 = time.time()
     try:
-        return run_case(case)
+        r = run_case(case)
+        r["secs"] = round(time.time() - t0, 2)
+        return r
     except CaseTimeout:
-        return {"in": None, "out": {"err": "timeout", "msg": "case exceeded %ss" % limit}}
+        return {"in": None, "out": {"err": "timeout", "msg": "case exceeded %ss" % limit}, "secs": round(time.time() - t0, 2)}
     finally:
         signal.alarm(0)
 
